@@ -52,6 +52,21 @@ def export(spec, seed=None, ctx=None, **kw):
     return buf.getvalue()
 
 
+_other_seed = {}
+
+
+def zygote_entry(req):
+    return {"text": export(req["spec"])}
+
+
+def export_under_hash_seed(spec, hs):
+    """the same export in an interpreter started with another PYTHONHASHSEED (fresh child per request)"""
+    from harness.zygote import Client
+    if hs not in _other_seed:
+        _other_seed[hs] = Client("checks.c17", env={"PYTHONHASHSEED": str(hs)})
+    return _other_seed[hs].ask({"spec": spec})["text"]
+
+
 def cds_facts(t, g, table):
     """(first codon is start, ends in frame on a stop, has in-frame stop, codon_start) from the FrameModel over the merged CDS"""
     strand = t["strand"]
@@ -170,6 +185,13 @@ def check_tbl(spec, ctx):
     # reproducible for a fixed seed
     text2 = export(spec)
     ctx.true("reproducible_for_fixed_seed", text2 == text, {"seed": spec["seed"], "diff": [(a, b) for a, b in zip(text.split("\n"), text2.split("\n")) if a != b][:2]})
+    # ... also in another interpreter: sets of qualifier values iterate in an order that depends on PYTHONHASHSEED
+    multi = any(len(v) >= 2 for g_ in spec["obj"]["genes"] for t in g_["transcripts"] for v in (t.get("qualifiers") or {}).values())
+    if multi or spec.get("hashseed_always"):
+        hs = 1 + (len(text) % 3)
+        text3 = export_under_hash_seed(spec, hs)
+        ctx.label("exported_under_another_hash_seed")
+        ctx.true("reproducible_across_hash_seeds", text3 == text, {"hash_seed": hs, "diff": [(a, b) for a, b in zip(text.split("\n"), text3.split("\n")) if a != b][:2]})
 
 
 # ------------------------------------------------------------------------------------ strategy
@@ -196,7 +218,7 @@ def strat_tbl(draw, tier="quick"):
         t = draw(S.transcript_spec(max_exons=3, max_len=12, strand=strand, coding=coding, zero_gap_cds=True, frameshift_prob=0, start_min=cursor, start_max=2))
         t["transcript_id"] = draw(st.one_of(st.none(), st.just("tx%d" % i))) if coding else "tx%d" % i
         t["is_primary_tx"] = None
-        t["qualifiers"] = draw(st.sampled_from([{}, {}, {"product": ["my_product"]}, {"db_xref": ["GeneID:1"]}, {"gene_synonym": ["syn1", "syn2"]}]))
+        t["qualifiers"] = draw(st.sampled_from([{}, {}, {"product": ["my_product"]}, {"db_xref": ["GeneID:1"]}, {"gene_synonym": ["syn1", "syn2"]}, {"db_xref": ["GeneID:1", "UniProt:P1", "taxon:9606", "X:a"], "gene_synonym": ["alpha", "beta", "gamma", "delta"]}]))
         if coding:
             t["transcript_type"] = "protein_coding"
             gtype = "protein_coding"
@@ -234,7 +256,7 @@ PROP = Prop(
     pid="C17",
     legs=[
         Leg("tbl", check_tbl, strategy=strat_tbl, n_quick=700, n_thorough=6000, shards_quick=4,
-            must_hit=["5p_partial", "3p_partial_frame", "3p_partial_nostop", "pseudo", "adjacent_cds_merged", "minus_multi_exon", "seed0", "complete_cds", "alt_start"],
+            must_hit=["5p_partial", "3p_partial_frame", "3p_partial_nostop", "pseudo", "adjacent_cds_merged", "minus_multi_exon", "seed0", "complete_cds", "alt_start", "exported_under_another_hash_seed"],
             rule="collections with sequence on a whole chromosome, 1..3 genes (one transcript each; coding with start offsets 0/1/2 and 0-bp-gap CDS blocks, or ncRNA/tRNA/rRNA/misc_RNA/lncRNA), sequences with planted start / stop / in-frame stop codons, x flavour x translation table x locus_tag_jump_size x random_seed (incl. 0) x optional prefix/lab; the text is read by an independent 5-column reader"),
     ],
     rule="Oracle: independent TBL reader; merged source blocks as 1-based inclusive 5'->3' intervals; FrameModel + codon tables for partial marks, codon_start and pseudo. "
